@@ -193,6 +193,7 @@ pub struct Net {
     pub record_payloads: bool,
     /// per-party hash of its observation history (issues, completions, received contents, poll boundaries)
     pub hist: Vec<u64>,
+    pub probes: Vec<crate::hooks::ProbeRec>,
     pub alloc: Vec<crate::alloc::Stats>,
 }
 
@@ -220,6 +221,7 @@ impl Net {
             bytes_delivered: vec![0; n],
             record_payloads: true,
             hist: vec![0x1234_5678_9abc_def0; n],
+            probes: vec![],
             alloc: vec![Default::default(); n],
         }
     }
@@ -632,9 +634,12 @@ struct PartyHandle<T> {
 }
 
 
+#[allow(clippy::too_many_arguments)]
 fn party_thread<T: Send + 'static>(
     p: usize,
     seed: u64,
+    taps: Vec<crate::hooks::TapSpec>,
+    record_probes: bool,
     body: Body<T>,
     net: Arc<Mutex<Net>>,
     rx: smpsc::Receiver<Cmd>,
@@ -642,7 +647,7 @@ fn party_thread<T: Send + 'static>(
 ) {
     set_entropy(seed, p as u64);
     crate::alloc::reset();
-    crate::hooks::party_thread_start(p);
+    crate::hooks::party_thread_start(p, net.clone(), taps, record_probes);
     let ch = VChannel {
         party: p,
         net: net.clone(),
@@ -724,6 +729,8 @@ pub struct ExecCfg {
     pub crash_after: Vec<Option<usize>>,
     /// hard cap on actions (machinery guard, never a verdict)
     pub max_actions: usize,
+    pub taps: Vec<crate::hooks::TapSpec>,
+    pub record_probes: bool,
 }
 
 impl ExecCfg {
@@ -735,6 +742,8 @@ impl ExecCfg {
             faults: vec![],
             crash_after: vec![None; n],
             max_actions: 2_000_000,
+            taps: vec![],
+            record_probes: false,
         }
     }
     pub fn cap(mut self, c: Option<usize>) -> Self {
@@ -765,10 +774,12 @@ impl<T: Send + 'static> Execution<T> {
             let b = body.clone();
             let nn = net.clone();
             let seed = cfg.seed;
+            let taps: Vec<crate::hooks::TapSpec> = cfg.taps.iter().filter(|t| t.party == p).cloned().collect();
+            let rp = cfg.record_probes;
             let join = std::thread::Builder::new()
                 .name(format!("party{p}"))
                 .stack_size(16 << 20)
-                .spawn(move || party_thread(p, seed, b, nn, crx, rtx))
+                .spawn(move || party_thread(p, seed, taps, rp, b, nn, crx, rtx))
                 .expect("spawn party thread");
             parties.push(PartyHandle {
                 tx: ctx,
@@ -968,6 +979,7 @@ pub struct RunResult<T> {
     pub cap_hit: bool,
     pub alloc: Vec<crate::alloc::Stats>,
     pub hists: Vec<u64>,
+    pub probes: Vec<crate::hooks::ProbeRec>,
 }
 
 /// Run an execution to completion.  `chooser(enabled, step index)` returns the index of the
@@ -1033,6 +1045,7 @@ pub fn run<T: Send + 'static>(
         cap_hit,
         alloc: net.alloc.clone(),
         hists: net.hist.clone(),
+        probes: net.probes.clone(),
     };
     drop(net);
     r
